@@ -71,6 +71,11 @@ FirstOfRing(N, cl) ==
                                      BigMul(BigOf(2 * s), BigOf(s + 1)))                       \* south cap: 12N^2 - 2 s (s+1)
 ToRing(N, cl) == LET p == PosInRing(N, cl) IN
                  BigAdd(FirstOfRing(N, cl), BigAdd(BigMul(BigOf(p[1]), BigOf(p[3])), BigOf(p[2])))
+(* index of the first cell of ring rho (1 .. 4N-1), and of rho = 4N: the total number of cells *)
+RingStart(N, rho) ==
+  IF rho <= N THEN BigMul(BigMul(<<2>>, BigOf(rho)), BigOf(rho - 1))
+  ELSE IF rho <= 3 * N THEN BigAdd(BigMul(BigMul(<<2>>, BigOf(N)), BigOf(N - 1)), BigMul(BigOf(rho - N), BigMul(<<4>>, BigOf(N))))
+  ELSE LET s == N - (rho - 3 * N) IN BigSub(BigMul(BigOf(12), BigMul(BigOf(N), BigOf(N))), BigMul(BigMul(<<2>>, BigOf(s)), BigOf(s + 1)))
 NHashBig(N) == BigMul(BigOf(12), BigMul(BigOf(N), BigOf(N)))
 
 (* ---- the definition: rank in (latitude desc, longitude asc) ---- *)
